@@ -122,7 +122,7 @@ def _module_paths(build, base, max_paths=200):
     return explore(run, base, max_paths)
 
 
-def g_forward_module(dim, mode, waveform, f1_region_excluded=True):
+def g_forward_module(dim, mode, waveform, f1_region_excluded=True, canary=None):
     """DWT1DForward (dim=1) / DWTForward (dim=2): real __init__ + forward, symbolic J.
     waveform: 'name' | 'wavelet' | 'tuple2' | 'tuple4'"""
     modkey = 'dwt.transform1d' if dim == 1 else 'dwt.transform2d'
@@ -193,6 +193,8 @@ def g_forward_module(dim, mode, waveform, f1_region_excluded=True):
                 if dim == 1:
                     wlo, whi = CD.spec_level_1d(A, wc.a['dec_lo'], wc.a['dec_hi'], 'periodization' if per else mode)
                 else:
+                    if canary == 'swap':      # deliberately wrong: row and column wavelets exchanged
+                        wc, wr = wr, wc
                     wlo, whi = CD.spec_level_2d(A, (wc.a['dec_lo'], wc.a['dec_hi']), (wr.a['dec_lo'], wr.a['dec_hi']),
                                                 'periodization' if per else mode)
                 obs += verify.value_equal(pid + '/INV-step[lowpass]', 'INV-step', newT, wlo, c.pc, mv)
